@@ -3,6 +3,7 @@
 pub mod vfield {
 #[allow(unused_imports)] use vstd::prelude::*;
 verus! {
+//@module_serves ALL
 pub trait Fld {
     type S;
     spec fn zero() -> Self::S;
